@@ -169,7 +169,9 @@ class World:
                     m["store"] = st.sid
             else:
                 args = [rng.choice(earlier) for _ in range(rng.choice([0, 1, 1, 2, 2, 3]))] if earlier else []
-                node = plan.call(self._mkfn(i), *[self.nodes[a] for a in args])
+                nkw = rng.choice([0, 0, 1, len(args)]) if args else 0       # the last nkw arguments are passed by keyword
+                npos = len(args) - nkw
+                node = plan.call(self._mkfn(i), *[self.nodes[a] for a in args[:npos]], **{"k%d" % j: self.nodes[a] for j, a in enumerate(args[npos:])})
                 m = dict(kind="call", fn=i + 1, litv=0, args=args, deps=deps, store=None, is_src=False)
                 if rng.random() < 0.55 and forced.get(i) != "writer":
                     st = self._mkstore()
@@ -228,7 +230,8 @@ class World:
     def _mkfn(self, i):
         w = self
 
-        def f(*args):
+        def f(*args, **kw):
+            args = tuple(args) + tuple(kw[k] for k in sorted(kw))      # keyword arguments k0, k1, ... continue the positional ones
             w.op("call", i, args)
             vals = [a[1] if (isinstance(a, tuple) and a and a[0] == "read") else a for a in args]
             vals = [x if isinstance(x, int) else -999 for x in vals]     # garbage in (e.g. None from a failed dependency) -> garbage out
